@@ -260,7 +260,8 @@ func (r *recPodControl) fail(key, what string) error {
 	return fmt.Errorf("injected %s failure", what)
 }
 
-func ordOfName(pod *v1.Pod) int { _, o := sts.VerifGetParentNameAndOrdinal(pod); return o }
+// the ordinal a pod's NAME denotes, read independently of the repository's own parser
+func ordOfName(pod *v1.Pod) int { _, o := specParentAndOrdinal(pod.Name); return o }
 
 func (r *recPodControl) CreateStatefulPod(set *apps.StatefulSet, pod *v1.Pod) error {
 	o := ordOfName(pod)
@@ -453,6 +454,12 @@ func genPodClass(rng *rand.Rand, ord int, cur, upd string, healthyBias int) rcPo
 func genRcCase(rng *rand.Rand) *rcCase {
 	c := &rcCase{faults: map[string]bool{}, kinds: map[string]string{}}
 	c.r = weighted(rng, 6, 12, 18, 22, 18, 12, 8)
+	switch rng.Intn(60) {
+	case 0, 1, 2, 3, 4: // ordinals with two digits (names sort differently as strings, parse differently in another base)
+		c.r = 8 + rng.Intn(10)
+	case 5: // and with three
+		c.r = 95 + rng.Intn(10)
+	}
 	// slots
 	nslots := weighted(rng, 30, 30, 20, 12, 8)
 	seen := map[int]bool{}
